@@ -495,8 +495,11 @@ class G(object):
         k = self.k
         kinds = list(k["w"].keys())
         weights = [k["w"][x] for x in kinds]
-        for _ in range(n):
+        for it in range(n):
             kind = self.r.choices(kinds, weights)[0]
+            if it == 0 and k.get("c08"):
+                self.move(aim="far", axes="XY")     # translation twin: the path proper starts with a full XY move
+                continue
             if getattr(self, "after_enable", 0) > 0 and kind not in ("at_switch",):
                 # right after re-enabling prefer single-axis (and relative) moves: they depend on the
                 # position tracked while exclusion was off
@@ -642,13 +645,16 @@ def knobs(rng, profile):
     return k
 
 
-def gen_print_schedule(rng, profile, k=None):
+def gen_print_schedule(rng, profile, k=None, return_gen=False, regions=None, nid=0):
     """-> (cfg, schedule) for the PRINT world."""
     k = k or knobs(rng, profile)
     if k.get("c02_mode") == "disabled":
         k["clear_path"] = False
         k["disable_at_start"] = True
     g = G(rng, k)
+    if regions:
+        g.regions = dict(regions)
+    g.nid = nid
     g.may_shrink = k["may_shrink"]
     g.fw = (k["retract"] == "fw")
     g.rlen = rng.choice([0.5, 0.8, 1.0, 2.5, 6.0])
@@ -666,4 +672,6 @@ def gen_print_schedule(rng, profile, k=None):
         g.prologue()
         g.body(k["nops"])
         g.end_print()
+    if return_gen:
+        return cfg, g.ops, g
     return cfg, g.ops
